@@ -371,7 +371,17 @@ func fmtValue(fr *frame, v value, verb byte) (out string) {
 		}
 		return "[" + strings.Join(parts, " ") + "]"
 	case *value:
-		return fmt.Sprintf("%p", x)
+		// deterministic per-path object ids instead of host addresses
+		m := fr.i.m
+		if m.ptrIDs == nil {
+			m.ptrIDs = map[*value]int{}
+		}
+		id, ok := m.ptrIDs[x]
+		if !ok {
+			id = len(m.ptrIDs) + 1
+			m.ptrIDs[x] = id
+		}
+		return fmt.Sprintf("0xc%09x", id*16)
 	case bool, int, int8, int16, int32, int64, uint, uint8, uint16, uint32, uint64, uintptr, float32, float64:
 		switch verb {
 		case 'd', 'x', 'c', 'q', 'f', 'g', 't', 'X', 'o', 'b':
